@@ -123,8 +123,19 @@ SPEC = dict(
         "bodies of EncodedSequence::{new, encode}, FromStr::from_str, Display::fmt and of the trait defaults "
         "Encode::{encode_raw, encode, encode_into} are the texts the Gallina definitions were transcribed from) — its "
         "reading of the tables is cross-checked on every run by the table case of the correspondence check",
-        "extraction: ExtrOcamlBasic only (nat, N, positive, list, option, Byte.byte kept as extracted inductives); OCaml 4.13.1",
-        "hand-written OCaml driver ocaml/encode/driver.ml (parsing, printing, comparison)",
+        "extraction: ExtrOcamlBasic only (its Extract Inductive directives for bool, option, list, prod, unit, sumbool, "
+        "sumor); no other Extract Inductive and no Extract Constant (nat, N, positive, Byte.byte kept as extracted "
+        "inductives); OCaml 4.13.1",
+        "hand-written OCaml driver ocaml/encode/driver.ml (parsing, printing, comparison with the extracted kernel models "
+        "and generated tables). PROPFAIL on an encoder outcome (text and sub-slice cases) is decided by the extracted "
+        "check_C05 (C05_check_sound), on the display round trip by the extracted check_C05_display. Hand-written "
+        "(non-extracted) PROPFAIL paths that remain: `ts display missing` (the text is accepted by the specification but "
+        "to_string() gave nothing or panicked) and `ts display of a rejected text` (a display was observed although the "
+        "specification rejects the text) - both only add a PROPFAIL; and the table case (kind=tab, one per alphabet), whose "
+        "PROPFAILs are OCaml comparisons of the tables the implementation itself reports (from_ascii b = Ok i iff b is the "
+        "i-th byte of as_str(), else Err(b as char); as_str() and symbols() have K entries; symbols()[i].as_index() = i, "
+        "as_ascii = as_char = i-th byte of as_str(); from_char c = from_ascii c below 128, Err above), next to the DIFF "
+        "comparison with the generated tables",
         "Rust harness harness/src/bin/encode.rs (calls the public encoder entry points, catch_unwind, hex printing)",
         "modelled, not verified: lane-wise semantics of _mm{,256}_{set1,cmpeq}_epi8, _mm256_blendv_epi8, "
         "_mm{,256}_{andnot,or,and}_si, _mm256_testz_si256, unaligned load/store as list operations on u8 lanes; NEON "
@@ -133,7 +144,10 @@ SPEC = dict(
         "sub-slicing `&v[a..a+n]` as firstn/skipn of a list and the write-back of a `&mut` sub-slice as a splice "
         "(addresses are not modelled: loads/stores of the kernels are the unaligned ones, checked textually); "
         "Vec::with_capacity+set_len as a buffer with arbitrary contents; `u8 as char` = code point of the byte; "
-        "Rust `match` = first matching arm; String/Display as the UTF-8 bytes of the written chars",
+        "Rust `match` = first matching arm; String/Display as the UTF-8 bytes of the written chars; "
+        "EncodedSequence::encode / FromStr::from_str have no model of their own: EncodeInst.encoded_sequence_encode is "
+        "pipeline_encode_raw of the dispatcher pipeline by transcription of their bodies (from_str = encode(as_bytes); the "
+        "translator compares the normalised texts), so the second conjunct of C05_encode_dispatch_eq holds by unfolding",
     ],
     assumptions=[
         "host is x86_64 (Dispatch arms Generic/Sse2/Avx2 are the ones run). encode_into_neon is modelled "
